@@ -8,7 +8,14 @@ From Coq Require Import List Arith Bool.
 Import ListNotations.
 From Onet Require Import Net.C09Router Net.C09RouterProofs.
 
-(* ---- containment: a Send never blocks and returns, whatever the peers did ------------------------ *)
+(* ---- containment ------------------------------------------------------------------------------------
+   In the transition system every operation on a peer (dial, write) is a step that RETURNS (success or
+   failure): time-outs are not modelled. c09_send_returns / c09_send_never_blocks therefore say that the
+   control flow of Router.Send has no unbounded loop and no state from which it cannot go on (one
+   reconnect per message, 12+6n steps) -- not that the operating system returns in time; that part is
+   observed under deadlines (clause 5). What CAN make a router wait for ever inside this code is its own
+   mutex and, on the in-memory transport, the manager's lock: these are modelled separately
+   (c09_mutex_never_stuck / c09_handlers_under_mutex_refuted, c09_local_close_completes / ..._refuted). *)
 
 Theorem c09_send_returns : forall f b n acts s p msgs o,
   run (init f b n) acts = Some s -> exists r, snd (send_call s p msgs o) = Some r.
@@ -25,8 +32,11 @@ Theorem c09_invariant : forall f b n acts s, run (init f b n) acts = Some s -> I
 Proof. exact reachable_inv. Qed.
 Print Assumptions c09_invariant.
 
-(* the crash of p touches nothing that concerns another peer: tables, threads, other peers'
-   connections and listeners are exactly as before *)
+(* ASSUMPTION made explicit, not a discovery: the environment action "peer p crashes" is DEFINED to touch
+   only p's listener and the far ends of p's connections. The statement records that frame so that the
+   other theorems can rely on it; that a real crash does no more to a survivor (no panic, no blocking,
+   canary runs go on) is what clause 5 checks on the observations of the real / cluster cases.
+   The modelled code paths contain no index or nil dereference, so the model has no Crash outcome. *)
 Theorem c09_crash_footprint : forall s p s',
   step s (ACrash p) = Some s' ->
   table s' = table s /\ threads s' = threads s /\ closed s' = closed s /\ calls s' = calls s /\
@@ -35,6 +45,30 @@ Theorem c09_crash_footprint : forall s p s',
   (forall c x, conns s c = Some x -> cpeer x <> p -> conns s' c = Some x).
 Proof. exact crash_footprint. Qed.
 Print Assumptions c09_crash_footprint.
+
+(* the router's own mutex: with the pinned lock discipline (nothing but Stop's closing of connections is
+   called with the mutex held; handlers are called without it) no thread ever waits for ever, whatever
+   the error handlers do with their router *)
+Theorem c09_mutex_never_stuck : forall ps ts s,
+  Forall (wfp false) ps -> mrun (mkM None ps) ts = Some s ->
+  (forall h, mtx s = Some h -> exists s', mstep s h = Some s') /\
+  (mtx s = None -> forall t p, nth_error (progs s) t = Some p -> p <> [] -> exists s', mstep s t = Some s').
+Proof. exact mutex_never_stuck. Qed.
+Print Assumptions c09_mutex_never_stuck.
+
+Theorem c09_router_programs_well_bracketed : forall hs,
+  wfp false (loop_exit_prog false hs) /\ wfp false send_prog /\ wfp false stop_prog.
+Proof. exact router_programs_well_bracketed. Qed.
+Print Assumptions c09_router_programs_well_bracketed.
+
+(* the variant that calls the handlers with the mutex held (seeded change C09-A): one re-entrant handler
+   and one Send are enough for a state in which nobody can move *)
+Theorem c09_handlers_under_mutex_refuted :
+  exists s, mrun (mkM None [loop_exit_prog true [true]; send_prog]) [0; 0; 0; 0; 0] = Some s /\
+            mstep s 0 = None /\ mstep s 1 = None /\
+            nth_error (progs s) 0 <> Some [] /\ nth_error (progs s) 1 <> Some [].
+Proof. exact handlers_under_mutex_refuted. Qed.
+Print Assumptions c09_handlers_under_mutex_refuted.
 
 (* ---- errors are reported -------------------------------------------------------------------------- *)
 
@@ -46,23 +80,26 @@ Theorem c09_router_send_fails : forall f b n acts s p msgs o,
 Proof. exact send_fails_when_nothing_listens. Qed.
 Print Assumptions c09_router_send_fails.
 
-(* every send entry point (with the repaired SendRaw) reports the router's failure *)
-Theorem c09_errors_propagate : forall f b n acts s p msgs o,
-  run (init f b n) acts = Some s -> listening s p = false ->
-  (forall c x, In c (table s p) -> conns s c = Some x -> sink x = false) ->
-  (table s p = [] \/ tcp s = false \/ o = false) ->
-  let r := opt_res (snd (send_call s p msgs o)) in
-  let snd_ := fun (st : unit) (q : nat) => (st, r) in
-  r = RErr /\
-  send_raw true r = RErr /\
-  send_to_tree_node r = RErr /\
-  tn_send_to false false r = RErr /\
-  snd (send_to_parent unit snd_ tt (Some p)) = RErr /\
-  snd (send_to_children unit snd_ tt [p]) = RErr /\
-  snd (multicast unit snd_ tt [p]) = [p] /\
-  (forall self, self <> p -> snd (broadcast unit snd_ tt self [self; p]) = [p]).
-Proof. exact entry_points_report. Qed.
+(* every send entry point over the REAL router state: each SendTo of a multi-destination entry point is a
+   Router.Send ([send_call]) in the state its predecessors left behind. If p is a destination, nothing
+   listens at p and no connection to p is registered, then SendToChildren fails (at p or before),
+   Multicast / Broadcast / SendToChildrenInParallel report p, and the single-destination entry points fail.
+   (That the Go wrappers are these folds is tied to the code by the CEntry correspondence cases.) *)
+Theorem c09_errors_propagate : forall msgs o p s dests self,
+  dead p s -> In p dests ->
+  snd (send_to_children state (rsend msgs o) s dests) = RErr /\
+  In p (snd (multicast state (rsend msgs o) s dests)) /\
+  (p <> self -> In p (snd (broadcast state (rsend msgs o) s self dests))) /\
+  snd (send_to_parent state (rsend msgs o) s (Some p)) = RErr /\
+  tn_send_to false false (snd (rsend msgs o s p)) = RErr /\
+  send_to_tree_node (snd (rsend msgs o s p)) = RErr /\
+  send_raw true (snd (rsend msgs o s p)) = RErr.
+Proof. exact errors_propagate_all. Qed.
 Print Assumptions c09_errors_propagate.
+
+Example c09_dead_example : dead 0 (st_of (run (init true false 0) [ACrash 0])).
+Proof. exact dead_example. Qed.
+Print Assumptions c09_dead_example.
 
 (* the multi-destination entry points report exactly the destinations whose send failed /
    SendToChildren fails iff some child before (and including) the first failure failed *)
@@ -142,6 +179,19 @@ Theorem c09_resend_after_restart : forall f b n acts s p msgs o,
 Proof. exact resend_after_restart. Qed.
 Print Assumptions c09_resend_after_restart.
 
+(* the same with the 'no abandoned connection' hypothesis discharged: when the peers run the repaired code
+   (they close a connection whose registration they refuse: no [AAcceptClosing false] in the history),
+   no connection is ever a sink. Remaining hypotheses: router not closed, peer listening, and the
+   transport does not swallow writes to dead peers (in-memory, or no kernel buffering: o = false). *)
+Theorem c09_resend_after_restart_closing_peers : forall f b n acts s p msgs o,
+  run (init f b n) acts = Some s -> Forall peer_closes acts ->
+  closed s = false -> listening s p = true -> (tcp s = false \/ o = false) -> msgs <> [] ->
+  exists s' D, send_call s p msgs o = (s', Some ROk) /\
+    delivered s' = delivered s ++ D /\ map fst D = msgs /\
+    Forall (fun mc => exists x, conns s' (snd mc) = Some x /\ cpeer x = p /\ cinc x = incn s' p /\ sink x = false) D.
+Proof. exact resend_after_restart_closing_peers. Qed.
+Print Assumptions c09_resend_after_restart_closing_peers.
+
 (* F11 seen from the survivor: with a connection abandoned unclosed by the stopping peer the
    Send after the restart returns nil and delivers nothing *)
 Theorem c09_resend_abandoned_refuted :
@@ -151,9 +201,10 @@ Theorem c09_resend_abandoned_refuted :
 Proof. exact resend_abandoned_refuted. Qed.
 Print Assumptions c09_resend_abandoned_refuted.
 
-(* the configuration set with SetConfig: with the repaired SendTo the first send that gets through
-   carries it; the pinned SendTo loses it after one failed send (noted beside the property:
-   the message itself does reach the restarted peer) *)
+(* the configuration set with SetConfig (C09-N1, beside the property, NOT part of the checker). The tree
+   runs the pinned SendTo (Corr.C09.code_fixed_N1 = false): one failed send loses the configuration
+   (c09_config_lost_refuted, compared with the code by the CConfig cases). The statement about the
+   proposed repair is a one-line computation and is kept only to document the intended behaviour. *)
 Theorem c09_config_reaches_fixed : forall earlier,
   Forall (fun r => r = RErr) earlier -> carries_config true earlier = true.
 Proof. exact config_reaches_fixed. Qed.
